@@ -179,6 +179,9 @@ impl RK4 {
             for i in 0..n {
                 y[i] += h * (B1 * k1[i] + B2 * k2[i] + B3 * k3[i] + B4 * k4[i]);
             }
+            // keep the derivative at the left end of the step for the Hermite interpolant
+            // (k1 is overwritten by the derivative at the new point; k4 is no longer needed)
+            k4.copy_from_slice(&k1);
             f.ode(x, &y, &mut k1);
 
             evals.ode += 4;
